@@ -211,7 +211,7 @@ def check_request(rec: hw.CallRec, cap, own_transport, V):
             V("request-content-type", "%s: Content-Type %r, expected %r" % (tag, can.get("content_type"), want_ct))
         if "body" not in can:
             V("request-json-body", "%s: body is not JSON: %r" % (tag, can.get("body_raw")))
-        elif can["body"] != exp["body"]:
+        elif _iso_norm(can["body"]) != _iso_norm(exp["body"]):
             V("request-json-body", "%s: body %s != expected %s" % (tag, _short(can["body"]), _short(exp["body"])),
               keys=sorted(can["body"]) if isinstance(can["body"], dict) else None)
         return
@@ -235,7 +235,7 @@ def check_request(rec: hw.CallRec, cap, own_transport, V):
     except ValueError:
         V("multipart-fields", "%s: operations/map are not JSON" % tag)
         return
-    if ops != exp["operations"]:
+    if _iso_norm(ops) != _iso_norm(exp["operations"]):
         V("multipart-operations", "%s: operations %s != expected %s (every file position must be null)" % (
             tag, _short(ops), _short(exp["operations"])))
     if not isinstance(fmap, dict) or not all(isinstance(v, list) for v in fmap.values()):
@@ -268,6 +268,31 @@ def check_request(rec: hw.CallRec, cap, own_transport, V):
         if part["bytes"] != data:
             V("multipart-file-bytes", "%s: file part %r carries %d bytes %r..., the Upload holds %d bytes" % (
                 tag, key, len(part["bytes"]), part["bytes"][:20], len(data)))
+
+
+_ISO_RE = None
+
+
+def _iso_norm(o):
+    """ISO-8601 spellings of one instant are one JSON form for the *reference model* ('Z' and '+00:00', trailing zero
+    fractions): strings that parse as a date-time are replaced by their parsed value.  (Whether the four clients spell it
+    the same way is decided by the differential comparison of the captured requests, which stays byte-exact.)"""
+    global _ISO_RE
+    import datetime as _dt
+    import re as _re
+    if _ISO_RE is None:
+        _ISO_RE = _re.compile(r"^\d{4}-\d{2}-\d{2}T\d{2}:\d{2}(:\d{2}(\.\d+)?)?(Z|[+-]\d{2}:?\d{2})?$")
+    if isinstance(o, dict):
+        return {k: _iso_norm(v) for k, v in o.items()}
+    if isinstance(o, list):
+        return [_iso_norm(v) for v in o]
+    if isinstance(o, str) and _ISO_RE.match(o):
+        try:
+            d = _dt.datetime.fromisoformat(o.replace("Z", "+00:00"))
+            return ("datetime", d.replace(tzinfo=None), d.utcoffset())
+        except ValueError:
+            return o
+    return o
 
 
 def _short(x):
